@@ -1,8 +1,12 @@
 """Which bundles (domain + contracts) decide which property, plus the per-property notes that go into MANIFEST / evidence."""
 
 SETUP_CMD = "mkdir -p evidence replays && python3-vt -c 'import z3; print(z3.get_version_string())' && /usr/bin/cvc5 --version | head -1 && ./tools/lean_check.sh"
-NOTES = ("Contract-based deductive verification with an own VC generator (pyvc); see DESIGN.md. Exit codes of ./check: 0 held, "
-         "1 violation (VIOLATION line), 2 undecided, 3 checker error / soundness guard.")
+NOTES = ("Contract-based deductive verification with an own VC generator (pyvc); see DESIGN.md (section 10 is the build report). Exit codes of ./check: 0 held, "
+         "1 violation (VIOLATION line), 2 undecided, 3 checker error / soundness guard. The quick tier discharges every obligation generated from /repo's current source "
+         "(z3, cvc5 for unknowns); the thorough tier repeats that with a 300 s budget, lets cvc5 re-decide every quantifier-free query, re-compiles the Lean lemma and adds two "
+         "bounded cross-checks of the trusted base that are never counted as proof: seeded differential tests of the assumed library facts (native/axiom_tests.py) and run-time "
+         "evaluation of the model bundle's contracts on the real code (native/rt_model.py). A refuted obligation is replayed natively (R1 scripts per bundle, the run-time "
+         "monitor, two falsification searches); without a failing input the VIOLATION line ends no-failing-input-found.")
 
 def lean_step(repo, tier, root):
     """lemma L1 (pure mathematics, independent of /repo): accepted by Lean 4 + Mathlib.  setup_cmd compiles it and records the hash of the accepted source;
@@ -177,12 +181,12 @@ PROPS = {
                           'check_float / check_integer / check_bool are verified against their specification for every value incl. NaN and None (binary64 / Z); ParameterList.__call__ '
                           'raises ValueError exactly for an unknown key or a second update, and no literal-key update in solve / solve_main can be a second update; the nine documented '
                           'exit-code constants are on the result; every ExitInformation site uses a documented code with a stem and a non-empty message; all 400+ resolved intra-package '
-                          'calls conform to their callee\'s signature (syntactic).',
+                          'calls conform to their callee\'s signature (syntactic). Exception frame: the only raise statements of the package are ValueError in ParameterList.__call__ and LinAlgError under interpolation.throw_error_on_nans (syntactic, whole package).',
             'level_note': 'Domain Rd + ParamsMixin: reals for rhobeg/rhoend/lh, Z for npt/maxfun/n; np.min(xu - xl) is a ghost real; A-params: check_all_params returns True only inside '
                           'the range table (its shape and the three check_* functions are verified in the paramcheck bundle). Argument TYPES are as documented (ndarrays, numbers, callables); '
                           'a bool given for an int parameter is accepted by check_integer (bool is an int in Python) and not counted as wrongly typed. A-exc: exceptions raised by NumPy on '
                           'malformed arrays (wrong shapes) are outside the claim. NOT decided: printing (str) totality as its own obligation; "never raises" after the prologue (C08).',
-            'not_decided': ['str(result) total', 'RuntimeError from projection initialisation with npt != n+1 (the statement\'s own limitation D14)']},
+            'not_decided': ['str(result) total']},
     'C19': {'bundles': ['owner', 'ledger'], 'level': 'proof',
             'level_text': '(a) Ownership: solve is executed with flow- and path-sensitive tags (borrowed / fresh); no in-place write (element, slice or mask store, augmented assignment, '
                           'mutating method) reaches a possibly-borrowed object and every mutable array handed to the rest of the package is fresh; no function of the package writes to a '
